@@ -103,6 +103,48 @@ def run_socket(stream_bytes, arrivals):
     return events
 
 
+def run_socket_protocol(stream_bytes, arrivals):
+    """Like run_socket, with the connection's real message handling: -> (ids of the messages handled, dropped?, addresses the peer book learnt)."""
+    import selectors
+    from harness import fakenet, sk
+    if "p" not in _NODE:
+        cfg = sk.Cfg()
+        w = sk.World(cfg, sk.Keys(2))
+        g = w.make_genesis()
+        _NODE["p"] = (w, g)
+    w, g = _NODE["p"]
+    node = fakenet.Node(w.T["CoinState"].empty().add_block_no_validation(g), g, real_store=False)
+    try:
+        peer = node.connect("x", host="10.0.8.1", port=6100, hello=False)
+        sock = node.peers["x"][1]
+        handled = []
+        orig = peer.handle_message_received
+
+        def rec(header, message):
+            handled.append(header.id)
+            return orig(header, message)
+        peer.handle_message_received = rec
+        pos = 0
+        for k in arrivals:
+            if sock.closed or not node.is_open("x"):
+                break
+            sock.inbox += stream_bytes[pos:pos + k]
+            pos += k
+            guard = 0
+            while sock.inbox and not sock.closed and node.is_open("x") and guard < 100000:
+                guard += 1
+                key = selectors.SelectorKey(sock, sock.fd, selectors.EVENT_READ, peer)
+                try:
+                    node.local.handle_remote_peer_selector_event(key, selectors.EVENT_READ)
+                except Exception as e:
+                    node.escaped.append(("event_read", repr(e)))
+        nm = node.local.network_manager
+        book = sorted((k_[0], k_[1]) for k_ in list(nm.disconnected_peers.keys()) + list(nm.connected_peers.keys()) if k_[1] == 2412)
+        return [list(handled), bool(sock.closed or not node.is_open("x")), book, len(node.escaped)]
+    finally:
+        node.close()
+
+
 def run(pid, tier, replay=None):
     chk = Check(pid, tier)
     quick = tier != "thorough"
@@ -258,6 +300,37 @@ def run(pid, tier, replay=None):
     chk.extra["rule"] = ("(stream, cutting) pairs: every behaviour of MC_Framing replayed; real streams of 1-7 real framed messages (with wrong magic, "
                          "over-limit length, truncated tail) under all-at-once, byte-at-a-time, every 2-way cut, %s 3-way cuts and random many-way cuts; "
                          "non-trivial = more than one read" % ("sampled" if quick else "every (short streams) / sampled"))
+    # ---- the same bytes, the same handling: streams delivered to the node's real connection object (the real message handlers, not a recorder)
+    #      under many fragmentations -- a well-formed session, and sessions the node refuses at the protocol level (first message is not a
+    #      greeting; a second greeting) with further frames behind the refusal point.  What was handled, whether the connection was dropped and
+    #      what the peer book learnt must be the same for every fragmentation (the reference is byte-wise delivery).
+    from skepticoin.networking import messages as M_
+    h1, gp = netmsg.hello(nonce=4711, my_port=2412), M_.GetPeersMessage()
+    sessions = {"greeting_then_requests": [h1, gp, gp], "no_greeting_first": [gp, h1, gp], "request_greeting_greeting": [gp, h1, h1, gp]}
+    pfacts = []
+    for sname, msgs_ in sessions.items():
+        sb = b"".join(netmsg.frame(netmsg.body(m_, 300 + j_)) for j_, m_ in enumerate(msgs_))
+        cuts = [[1] * len(sb), [len(sb)], [1024] * (len(sb) // 1024 + 1)]
+        for c_ in range(1, len(sb), max(1, len(sb) // (25 if quick else 200))):
+            cuts.append([c_, len(sb) - c_])
+        for _ in range(20 if quick else 300):
+            pts = sorted(rng.sample(range(1, len(sb)), rng.randint(2, 5)))
+            cuts.append([b_ - a_ for a_, b_ in zip([0] + pts, pts + [len(sb)])])
+        ref_out = None
+        for ci, arr in enumerate(cuts):
+            out_ = run_socket_protocol(sb, arr)
+            if ci == 0:
+                ref_out = out_
+            pfacts.append({"clause": "C11:messages_handled_depend_on_how_the_bytes_were_split", "holds": out_ == ref_out,
+                           "what": "session %s, reads of %s bytes: %s (byte-wise: %s)" % (sname, arr[:6], out_, ref_out)})
+            chk.case(("session", sname, ci), nontrivial=len(arr) > 1)
+    vf_, rf_ = tracecheck.run("TraceFacts", pfacts, {}, ids=[1], workers=1, timeout=600)
+    chk.traces_validated += 1
+    seen_ = 0
+    for (line, clause) in tlc.tagged(rf_, "FINDING"):
+        if seen_ < 5:
+            chk.violation(clause, {"run": pfacts[line - 1]["what"]}, {"clause": clause})
+        seen_ += 1
     return chk.finish()
 
 
